@@ -17,7 +17,7 @@ from mc.ref import ips
 ID = "C12"
 LEVEL = "exploration"
 LEVEL_TEXT = ("Complete enumeration of the option lattice format {ips,sfc} x mapping {low,low2,high,not given} x copier header {off,on} x "
-              "defines {none, one, two (the second in terms of the first), two with value zero, a dotted name} (80 points) x every generated program valid at that point (position moves into "
+              "defines {none, one, two (the second in terms of the first), two with value zero, a dotted name, a value written with |} (96 points) x every generated program valid at that point (position moves into "
               "several banks and mirrors, @= relocation, labels in blocks/scopes/macros/loops, defines used in data, .if and .for "
               "bounds, overlapping and bank-crossing blocks, a 65552-byte block that IPS must split, blocks of one repeated byte, .include/.incbin), each output path alternately absent and holding a longer stale file, through Program.assemble, Program.assemble_as_patch, "
               "cli_main in-process and, for every lattice point, a real `python -m a816.cli` process. Output files are read back "
@@ -38,7 +38,8 @@ MAPPINGS = ["low", "low2", "high", None]
 HEADERS = [False, True]
 # the last configuration defines BAR in terms of FOO (defines are installed in command-line order)
 # the fifth one uses a dotted name (the form a named scope exports), a legal symbol name
-DEFINES = [(), (("FOO", "5"),), (("FOO", "5"), ("BAR", "FOO-2")), (("FOO", "0"), ("BAR", "4-4")), (("cfg.depth", "3"), ("FOO", "2"))]
+DEFINES = [(), (("FOO", "5"),), (("FOO", "5"), ("BAR", "FOO-2")), (("FOO", "0"), ("BAR", "4-4")), (("cfg.depth", "3"), ("FOO", "2")),
+           (("FLAGS", "0x01|0x80"), ("FOO", "FLAGS&0x0f"))]
 
 
 def define_values(defines):
@@ -56,7 +57,7 @@ BASE[None] = BASE["low"]
 
 
 def bound(tier):
-    return ("80 lattice points (odd ones additionally with --verbose --dump-symbols and an output path in a subdirectory) x 7-9 programs x 3 in-process entry points; output paths alternately fresh and holding a longer stale file; 80 lattice points x " + ("all" if tier == "thorough" else "2") +
+    return ("96 lattice points (odd ones additionally with --verbose --dump-symbols and an output path in a subdirectory) x 7-9 programs x 3 in-process entry points; output paths alternately fresh and holding a longer stale file; 96 lattice points x " + ("all" if tier == "thorough" else "2") +
             " programs as real CLI processes")
 
 
@@ -107,6 +108,8 @@ def programs(mapping, defines):
     if "cfg.depth" in names:
         out["use-dotted"] = [("org", N(b["a"])), ("data", "dw", [S("cfg.depth")]), ("if", S("cfg.depth"), [("data", "db", [N(0x11)])], None),
                              ("for", "ii", N(0), S("cfg.depth"), [("data", "db", [("b", "+", S("ii"), S("FOO"))])])]
+    if "FLAGS" in names:
+        out["use-flags"] = [("org", N(b["a"])), ("data", "dw", [S("FLAGS")]), ("data", "db", [S("FOO")])]
     if "FOO" in names:
         out["use-foo"] = [("org", N(b["a"])), ("data", "dw", [S("FOO")]), ("if", S("FOO"), [("data", "db", [N(0x11)])], [("data", "db", [N(0x22)])]),
                           ("data", "dl", [("b", "+", S("FOO"), N(0x100))])]
